@@ -48,9 +48,13 @@ type c20Meta struct {
 	MinSized bool                `json:"min_sized"`
 	Cycle    bool                `json:"cross_file_cycle"`
 	// CrossPkgCombo / CrossPkgAnyOf: an allOf/anyOf (resp. anyOf) branch $ref crosses packages
-	CrossPkgCombo bool              `json:"crosspackage_combinator_ref"`
-	CrossPkgAnyOf bool              `json:"crosspackage_anyof_ref"`
-	Pkgs          map[string]string `json:"pkgs"` // package base name -> path
+	CrossPkgCombo bool `json:"crosspackage_combinator_ref"`
+	CrossPkgAnyOf bool `json:"crosspackage_anyof_ref"`
+	// Clash3: three structurally different definitions of three files share one Go name in
+	// one package (Clash, Clash_1, Clash_2 by processing order): U cannot apply (naming is
+	// order dependent by design), only "nothing declared twice", routing and exit status
+	Clash3 bool              `json:"clash3"`
+	Pkgs   map[string]string `json:"pkgs"` // package base name -> path
 }
 
 func expectedRouting(w *World, f *SFile) (outAbs, pkgPath string) {
@@ -187,9 +191,16 @@ func (p c20) Gen(t *rapid.T, env *Env) (*Case, []*Out) {
 	if env.Thorough() {
 		maxFiles = 4
 	}
-	w := GenWorldMulti(t, maxFiles)
+	var w *World
+	clash3 := rapid.IntRange(0, 11).Draw(t, "clash3") == 0
+	if clash3 {
+		w = clash3World(t)
+	} else {
+		w = GenWorldMulti(t, maxFiles)
+	}
 	env.Stats.NoteFeat(w.Feat)
 	meta := buildC20Meta(w)
+	meta.Clash3 = clash3
 	c := &Case{Prop: "C20"}
 	var outs []*Out
 	addRun := func(label string, idx []int, spell []string) {
@@ -344,7 +355,7 @@ func (p c20) Eval(c *Case, outs []*Out) []Discrepancy {
 		}
 		run := runs[i]
 		// ---- U
-		if i >= nf {
+		if i >= nf && !meta.Clash3 {
 			exp := map[string]map[string]string{} // file -> key -> text
 			expImp := map[string]map[string]string{}
 			expPkg := map[string]string{}
@@ -694,4 +705,37 @@ func unmarshalerOnly(keys []string) string {
 		}
 	}
 	return ":unmarshaler-only"
+}
+
+// clash3World: order.json / customer.json / shipping.json in miniature. File 0's
+// definition "Clash" is generated while the plain name already belongs to a
+// finished declaration (its definition "AaT0" sorts first and pulls in file 1 with
+// its own "Clash"), and while in flight it follows a $ref into file 2, which has a
+// third "Clash". Every history must declare each of the three exactly once.
+func clash3World(t *rapid.T) *World {
+	str := Obj{{"type", "string"}}
+	mk := func(tag, def string) KV { return KV{"mk_" + tag + "_" + def, str} }
+	legacy := rapid.Bool().Draw(t, "c3legacy")
+	dk, frag := "$defs", "#/$defs/"
+	if legacy {
+		dk, frag = "definitions", "#/definitions/"
+	}
+	f1 := &SFile{Tag: "t1", Base: "t1f.json", ID: "https://example.com/t1", RootObj: true, Defs: []string{"Clash", "PeT1"}}
+	f1.Doc = Obj{{"$id", f1.ID}, {"type", "object"}, {"properties", Obj{{"mk_t1", str}, {"t1home", Obj{{"$ref", frag + "Clash"}}}, {"t1person", Obj{{"$ref", frag + "PeT1"}}}}},
+		{dk, Obj{{"Clash", Obj{{"type", "object"}, {"properties", Obj{mk("t1", "Clash"), {"t1city", str}}}, {"required", []any{"t1city"}}}},
+			{"PeT1", Obj{{"type", "object"}, {"properties", Obj{mk("t1", "PeT1"), {"t1name", str}}}}}}}}
+	f2 := &SFile{Tag: "t2", Base: "t2f.json", ID: "https://example.com/t2", RootObj: true, Defs: []string{"Clash", "CaT2"}}
+	f2.Doc = Obj{{"$id", f2.ID}, {"type", "object"}, {"properties", Obj{{"mk_t2", str}, {"t2depot", Obj{{"$ref", frag + "Clash"}}}, {"t2carrier", Obj{{"$ref", frag + "CaT2"}}}}},
+		{dk, Obj{{"Clash", Obj{{"type", "object"}, {"properties", Obj{mk("t2", "Clash"), {"t2dock", Obj{{"type", "integer"}}}}}, {"required", []any{"t2dock"}}}},
+			{"CaT2", Obj{{"type", "object"}, {"properties", Obj{mk("t2", "CaT2"), {"t2code", str}}}}}}}}
+	f0 := &SFile{Tag: "t0", Base: "t0f.json", ID: "https://example.com/t0", RootObj: true, Defs: []string{"AaT0", "Clash"}}
+	f0.Doc = Obj{{"$id", f0.ID}, {"type", "object"}, {"properties", Obj{{"mk_t0", str}, {"t0account", Obj{{"$ref", frag + "AaT0"}}}, {"t0billing", Obj{{"$ref", frag + "Clash"}}}}},
+		{dk, Obj{{"AaT0", Obj{{"type", "object"}, {"properties", Obj{mk("t0", "AaT0"), {"t0owner", Obj{{"$ref", "t1f.json" + frag + "PeT1"}}}}}}},
+			{"Clash", Obj{{"type", "object"}, {"properties", Obj{mk("t0", "Clash"), {"t0street", str}, {"t0carrier", Obj{{"$ref", "t2f.json" + frag + "CaT2"}}}}}, {"required", []any{"t0street"}}}}}}}
+	f0.Refs = []RefUse{{FromTag: "t0", FromDef: "AaT0", Prop: "t0owner", Ref: "t1f.json" + frag + "PeT1", ToTag: "t1", ToDef: "PeT1", Spelling: "plain"},
+		{FromTag: "t0", FromDef: "Clash", Prop: "t0carrier", Ref: "t2f.json" + frag + "CaT2", ToTag: "t2", ToDef: "CaT2", Spelling: "plain"}}
+	w := &World{Root: "/w", Cwd: "/w", Files: []*SFile{f0, f1, f2}}
+	w.Opts = Options{Package: "example.com/m/main", Output: rapid.SampledFrom([]string{"", "gen.go", "out/gen.go"}).Draw(t, "c3out"),
+		Extra: rapid.Bool().Draw(t, "c3e"), OnlyModels: rapid.IntRange(0, 3).Draw(t, "c3om") == 0, MinSized: rapid.Bool().Draw(t, "c3ms")}
+	return w
 }
